@@ -67,16 +67,15 @@ def meta(tier):
                 'containing a symbol name) x definition source of each defined symbol in {ISA, -D, #define} x use-line token pairs '
                 '(written once before and once after the #define block, as `.byte t1, t2`, through `T = t1` and as the operand of `ldi b, t2`); plus every '
                 'double definition across and within sources; replacement texts with backslash escapes (5 strings x 3 sources x chains of 0..2 intermediate '
-                'symbols) used in .cstr / .byte; non-trivial = table with a chain/diamond/cycle or a use line that '
+                'symbols) used in .cstr / .byte; symbols without a value (3 sources x chains) in 7 lines that stay well-formed when the name disappears; non-trivial = table with a chain/diamond/cycle or a use line that '
                 'mixes a symbol with an identifier containing its name; states = distinct (table, sources) pairs',
         'bounds': {'symbols': SYMS, 'values': {k: [None if v is None else ' '.join(v) for v in vs] for k, vs in VALUES.items()},
                    'containing_identifiers': CONSTS, 'use_tokens': [' '.join(t) for t in USE_TOKENS],
                    'use_pairs': 'the 14 listed pairs' if q else 'all 121 pairs', 'sources': SOURCES},
         'assumptions': ['substitution is textual (a replacement `CD+EF` inside `AB*2` gives `6+7*2`), as the statement says "replacement text"',
-                        'symbols with an empty replacement are used only for double-definition cases (a data list with an empty item '
-                        'is outside the statement)'],
+                        'symbols with an empty replacement are used where removing the name leaves a well-formed line'],
         'floors': {'evaluations': 1000, 'nontrivial': 100, 'statuses': ['OK', 'REJECT'],
-                   'clauses': ['substituted', 'cycle-rejected', 'double-definition-rejected', 'string-replacement']},
+                   'clauses': ['substituted', 'cycle-rejected', 'double-definition-rejected', 'string-replacement', 'empty-replacement']},
         'nshards': 64,
     }
 
@@ -182,7 +181,8 @@ def shard(acc, tier, idx, n):
             if msg:
                 acc.violation([case], spec, msg, [out])
             acc.judge(clause='double-definition-rejected', nontrivial_key=('dd', s1, s2, v1, v2))
-    string_replacements(acc, idx, n, ctr)
+    ctr = string_replacements(acc, idx, n, ctr)
+    empty_replacements(acc, idx, n, ctr)
 
 
 # replacement texts that carry backslashes (string escapes): copied verbatim, whatever the source and through chains
@@ -213,6 +213,37 @@ def string_replacements(acc, idx, n, ctr0):
             acc.violation([case], spec, f'replacement text {text} from {src} through {chain} intermediate symbols: {msg}', [out])
         acc.judge(clause='string-replacement', nontrivial_key=('str', text, src, chain))
         acc.sample({'program': case.files['main.asm'], 'cli_defines': cli, 'isa_symbols': isa_syms, 'reference': spec})
+    return ctr
+
+
+def empty_replacements(acc, idx, n, ctr0):
+    """A symbol defined without a value is replaced by nothing (the name disappears), whatever its source and through chains."""
+    ctr = ctr0
+    uses = [('    .byte EM 9', [9]), ('    ldi b, EM 7', [0xA1, 7]), ('    .byte 1, EM 2', [1, 2]), ('    .byte 4 EM', [4]),
+            ('    EM ldi a, 3', [0xA0, 3]), ('    .byte EM -3', [0xFD]), ('    .byte EM EM 6 EM', [6])]
+    for src, chain, (line, data) in itertools.product(SOURCES, (0, 1), uses):
+        ctr += 1
+        if ctr % n != idx:
+            continue
+        names = ['EV', 'EM'] if chain else ['EM']          # EM -> EV -> nothing, or EM -> nothing
+        table = {names[0]: ''}
+        for a, b in zip(names[1:], names):
+            table[a] = b
+        isa_syms = [({'name': k, 'value': v} if v else {'name': k}) for k, v in table.items()] if src == 'isa' else []
+        cli = [(f'{k}={v}' if v else k) for k, v in table.items()] if src == 'cli' else []
+        lines = []
+        if src == 'define':
+            lines.append('EM = 97')           # a constant of the same name, visible only before the #define
+            lines += [f'#define {k} {v}'.rstrip() for k, v in table.items()]
+        lines += [line, '    .byte $EE']
+        case = Case(probe_isa(16, 'little', symbols=isa_syms or None), '\n'.join(lines) + '\n', defines=cli)
+        out = acc.run(case)
+        acc.transition()
+        spec = {'expect': 'OK', 'image_hex': bytes(data + [0xEE]).hex(), 'source': src, 'chain': chain, 'line': line.strip()}
+        msg = judge_expect(spec, [out])
+        if msg:
+            acc.violation([case], spec, f'symbol without a value ({src}, chain {chain}) in {line.strip()!r}: {msg}', [out])
+        acc.judge(clause='empty-replacement', nontrivial_key=('empty', src, chain, line))
     return ctr
 
 
